@@ -4,6 +4,7 @@ import (
 	"encoding/json"
 	"fmt"
 	"io"
+	"math"
 	"runtime"
 
 	structform "github.com/elastic/go-structform"
@@ -138,6 +139,16 @@ var formats = map[string]*fmtAPI{
 			vs.SetEscapeHTML(o.EscapeHTML)
 			vs.SetExplicitRadixPoint(o.ExplicitRadixPoint)
 			vs.SetIgnoreInvalidFloat(o.IgnoreInvalidFloat)
+			// every encoder under test has a neighbour: another instance in the same process, configured the
+			// opposite way and used (instances share nothing in the model)
+			nb := sfjson.NewVisitor(io.Discard)
+			nb.SetEscapeHTML(!o.EscapeHTML)
+			nb.SetExplicitRadixPoint(!o.ExplicitRadixPoint)
+			nb.SetIgnoreInvalidFloat(!o.IgnoreInvalidFloat)
+			nb.OnArrayStart(-1, structform.AnyType)
+			nb.OnString("<&>\u2028")
+			nb.OnFloat64(1)
+			nb.OnFloat64(math.Inf(1))
 			return extEnc{vs, structform.EnsureExtVisitor(vs)}
 		},
 	},
@@ -152,6 +163,10 @@ var formats = map[string]*fmtAPI{
 		newBytesDecoder: func(b []byte, v structform.Visitor) decoderI { return ubjson.NewBytesDecoder(b, v) },
 		newVisitor: func(w io.Writer, _ Opts) encoderI {
 			vs := ubjson.NewVisitor(w)
+			nb := ubjson.NewVisitor(io.Discard) // a neighbour instance, used while the one under test exists
+			nb.OnArrayStart(-1, structform.AnyType)
+			nb.OnString("neighbour")
+			nb.OnInt64(-1)
 			return extEnc{vs, structform.EnsureExtVisitor(vs)}
 		},
 	},
@@ -166,6 +181,10 @@ var formats = map[string]*fmtAPI{
 		newBytesDecoder: func(b []byte, v structform.Visitor) decoderI { return cborl.NewBytesDecoder(b, v) },
 		newVisitor: func(w io.Writer, _ Opts) encoderI {
 			vs := cborl.NewVisitor(w)
+			nb := cborl.NewVisitor(io.Discard) // a neighbour instance, used while the one under test exists
+			nb.OnArrayStart(-1, structform.AnyType)
+			nb.OnString("neighbour")
+			nb.OnInt64(-1)
 			return extEnc{vs, structform.EnsureExtVisitor(vs)}
 		},
 	},
@@ -285,13 +304,22 @@ func runParse(c *Case, tr *Trace) {
 		tr.Calls = append(tr.Calls, Call{Op: op, N: n, Err: cl, Msg: msg, Ev: take(), Wr: [][]int{}, Dep: dep, After: rec.After})
 		return err == nil
 	}
+	preMut := 0
 	parseDoc := func(v structform.Visitor, entry string) {
 		switch entry {
 		case "parse":
 			// the documented one-shot function
 			addCall("parse", len(doc), api.parse(exact(doc), v), nil)
 		case "parsestr":
-			addCall("parse", len(doc), api.parseString(string(doc), v), nil)
+			// the text lives in read-only memory, like a caller's constant
+			str, release := roString(doc)
+			err := api.parseString(str, v)
+			// (recorders copy what they keep, so nothing refers to the mapping any more ... except by-value
+			// strings a parser handed out WITHOUT copying: they are compared before the mapping goes away)
+			preMut = rec.Mutated()
+			rec.held = nil
+			release()
+			addCall("parse", len(doc), err, nil)
 		case "write":
 			p := api.newParser(v)
 			ok := true
@@ -385,7 +413,7 @@ func runParse(c *Case, tr *Trace) {
 		v = struct{ structform.Visitor }{rec}
 	}
 	parseDoc(v, c.Entry)
-	tr.StrMut = rec.Mutated()
+	tr.StrMut = preMut + rec.Mutated()
 	tr.EvCap = rec.Dropped > 0
 	if c.Measure {
 		cv := &CountVisitor{}
